@@ -480,6 +480,7 @@ func finish(eventsPath, emitPath, keysPath, verifyPath string) {
 	w := hx.NewWriter(verifyPath)
 	defer w.Close()
 	tampered, truncated, stdchecked, built := 0, 0, 0, 0
+	var later []func()
 	hx.ReadNDJSON(eventsPath, func(i int, e *evSign) {
 		em := ems[e.Id]
 		if em == nil {
@@ -546,58 +547,12 @@ func finish(eventsPath, emitPath, keysPath, verifyPath string) {
 				w.Emit(ev)
 			}
 		}
-		// (4) tampering and truncation, on a message the real Verify accepts
-		for bi, buf := range bufs {
-			if bi > 0 && (!hx.Thorough() || len(buf) > 500) {
-				break // the real one if Sign produced it, else the built one; thorough: both when short
-			}
-			if err, _ := receive(keyrr, buf); err != nil {
-				continue // rejected as it is (judged in pass 2): nothing to learn from altering it
-			}
-			m := new(dns.Msg)
-			m.Unpack(buf)
-			orig := m.Extra[len(m.Extra)-1].(*dns.SIG)
-			stride := 1
-			if !hx.Thorough() && len(buf) > 700 {
-				stride = 1 + len(buf)/350
-			} else if len(buf) > 2000 {
-				stride = 1 + len(buf)/1000
-			}
-			for _, rg := range em.Regions {
-				for off := rg.From; off <= rg.To && off < len(buf); off++ {
-					if stride > 1 && off >= 14 && off%stride != 0 && off < rg.To-90 {
-						continue
-					}
-					for bit := 0; bit < 8; bit++ {
-						t := append([]byte(nil), buf...)
-						t[off] ^= 1 << bit
-						tampered++
-						sum.Evaluations++
-						e1, p1 := direct(orig, keyrr, t)
-						e2, p2 := receive(keyrr, t)
-						c := map[string]interface{}{"id": e.Id, "buf": names[bi], "offset": off, "bit": bit, "region": rg.What}
-						if p1 != "" || p2 != "" {
-							sum.Mis("sig0/verify-panics:tampered:"+rg.What, "panic: "+p1+p2, c)
-						} else if rg.Must == "reject" && (e1 == nil || e2 == nil) {
-							sum.Mis("sig0/verify-accepts-tampered:"+rg.What, fmt.Sprintf("bit %d of octet %d (%s) altered, Verify still accepts (direct=%v, via Unpack=%v)", bit, off, rg.What, e1, e2), c)
-						}
-					}
-				}
-			}
-			for n := 12; n < len(buf); n++ {
-				truncated++
-				sum.Evaluations++
-				e1, p1 := direct(orig, keyrr, buf[:n:n])
-				e2, p2 := receive(keyrr, buf[:n:n])
-				c := map[string]interface{}{"id": e.Id, "buf": names[bi], "length": n, "of": len(buf)}
-				if p1 != "" || p2 != "" {
-					sum.Mis("sig0/verify-panics:truncated", fmt.Sprintf("cut to %d of %d octets: panic: %s%s", n, len(buf), p1, p2), c)
-				} else if e1 == nil || e2 == nil {
-					sum.Mis("sig0/verify-accepts-truncated", fmt.Sprintf("cut to %d of %d octets, Verify still accepts", n, len(buf)), c)
-				}
-			}
-		}
+		later = append(later, func() { tamper(e, em, keyrr, bufs, names, &sum, &tampered, &truncated) })
 	})
+	// (4) after every time-dependent assertion has been made: tampering and truncation
+	for _, f := range later {
+		f()
+	}
 	sum.Nontrivial = tampered + truncated + stdchecked + w.N
 	sum.Note("tampered_inputs", tampered)
 	sum.Note("truncated_inputs", truncated)
@@ -605,6 +560,63 @@ func finish(eventsPath, emitPath, keysPath, verifyPath string) {
 	sum.Note("messages_built_from_spec", built)
 	sum.Note("verify_events", w.N)
 	sum.Print()
+}
+
+// tampering and truncation, on a message the real Verify accepts: every expectation here is a rejection,
+// so a validity window running out meanwhile cannot turn into a false alarm
+func tamper(e *evSign, em *emitted, keyrr *dns.KEY, bufs [][]byte, names []string, sum *hx.Summary, tampered, truncated *int) {
+	for bi, buf := range bufs {
+		if bi > 0 && (!hx.Thorough() || len(buf) > 500) {
+			break // the real one if Sign produced it, else the built one; thorough: both when short
+		}
+		if err, _ := receive(keyrr, buf); err != nil {
+			continue // rejected as it is (judged in pass 2): nothing to learn from altering it
+		}
+		m := new(dns.Msg)
+		m.Unpack(buf)
+		orig := m.Extra[len(m.Extra)-1].(*dns.SIG)
+		stride := 1
+		if !hx.Thorough() && e.SigLen == 96 && len(buf) > 300 { // P-384 verification is ten times slower than the others
+			stride = 1 + len(buf)/120
+		} else if !hx.Thorough() && len(buf) > 700 {
+			stride = 1 + len(buf)/350
+		} else if len(buf) > 1200 {
+			stride = 1 + len(buf)/600
+		}
+		for _, rg := range em.Regions {
+			for off := rg.From; off <= rg.To && off < len(buf); off++ {
+				if stride > 1 && off >= 14 && off%stride != 0 && off < rg.To-90 {
+					continue
+				}
+				for bit := 0; bit < 8; bit++ {
+					t := append([]byte(nil), buf...)
+					t[off] ^= 1 << bit
+					*tampered++
+					sum.Evaluations++
+					e1, p1 := direct(orig, keyrr, t)
+					e2, p2 := receive(keyrr, t)
+					c := map[string]interface{}{"id": e.Id, "buf": names[bi], "offset": off, "bit": bit, "region": rg.What}
+					if p1 != "" || p2 != "" {
+						sum.Mis("sig0/verify-panics:tampered:"+rg.What, "panic: "+p1+p2, c)
+					} else if rg.Must == "reject" && (e1 == nil || e2 == nil) {
+						sum.Mis("sig0/verify-accepts-tampered:"+rg.What, fmt.Sprintf("bit %d of octet %d (%s) altered, Verify still accepts (direct=%v, via Unpack=%v)", bit, off, rg.What, e1, e2), c)
+					}
+				}
+			}
+		}
+		for n := 12; n < len(buf); n++ {
+			*truncated++
+			sum.Evaluations++
+			e1, p1 := direct(orig, keyrr, buf[:n:n])
+			e2, p2 := receive(keyrr, buf[:n:n])
+			c := map[string]interface{}{"id": e.Id, "buf": names[bi], "length": n, "of": len(buf)}
+			if p1 != "" || p2 != "" {
+				sum.Mis("sig0/verify-panics:truncated", fmt.Sprintf("cut to %d of %d octets: panic: %s%s", n, len(buf), p1, p2), c)
+			} else if e1 == nil || e2 == nil {
+				sum.Mis("sig0/verify-accepts-truncated", fmt.Sprintf("cut to %d of %d octets, Verify still accepts", n, len(buf)), c)
+			}
+		}
+	}
 }
 
 func otherAlg(a string, ks map[string]key) string {
